@@ -82,7 +82,7 @@ func ZigzagEncode(value int64) uint64 {
 }
 
 func ZigzagDecode(value uint64) int64 {
-	return (int64(value) >> 1) ^ (-(int64(value) & 1))
+	return int64(value>>1) ^ -int64(value&1)
 }
 
 // MarshalDeltaCodedInts writes delta, zigzag, coded varints
